@@ -34,6 +34,7 @@ type c15Scenario struct {
 	FinalDelayMs int  // extra delay before the input ends (moves the final write relative to the interim ticks)
 	StaleTmp     bool // a longer <outfile>.tmp (and .query.tmp) is left over from an earlier, killed run
 	OtherFS      bool // the outfile lives on another filesystem (/dev/shm) than the process's temporary directory and cwd
+	AltQuery     bool // the same query spelled with upper-case keywords: another text of the same length with the same result
 }
 
 // c15Base returns the directory of a scenario's outfile. OtherFS scenarios get one on /dev/shm (a tmpfs, another
@@ -95,6 +96,15 @@ func c15Query(out string, appendMode, interim bool) string {
 	return q
 }
 
+// c15AltQuery: the earlier runs against an outfile use this spelling, so that the query file they leave behind holds
+// a different text of exactly the same length as the judged run's.
+func c15AltQuery(q string) string {
+	for _, kw := range []string{"from ", "select ", "group by ", "limit ", "outfile ", "append ", "interval "} {
+		q = strings.Replace(q, kw, strings.ToUpper(kw), 1)
+	}
+	return q
+}
+
 // c15Run runs dmap serverless with the input on stdin (paced if interim) and
 // the given VERIF_POINTS; returns the result and the hook trace.
 func c15Run(r *vlib.Run, dir string, sc c15Scenario, gen int, points string, watch func(), strace []string) (*vlib.Result, []hookEvent) {
@@ -102,6 +112,9 @@ func c15Run(r *vlib.Run, dir string, sc c15Scenario, gen int, points string, wat
 	trace := filepath.Join(dir, "trace.jsonl")
 	os.Remove(trace)
 	query := c15Query(out, sc.Append, sc.Interim)
+	if sc.AltQuery {
+		query = c15AltQuery(query)
+	}
 	args := []string{"--cfg", "none", "--logger", "stdout", "--logLevel", "error", "--noColor", "--files", "-", "--query", query}
 	bin := r.Bin("dmap")
 	argv := append([]string{bin}, args...)
@@ -489,7 +502,7 @@ func c15Prepare(r *vlib.Run, dir string, sc c15Scenario) []byte {
 	os.RemoveAll(dir)
 	os.MkdirAll(dir, 0755)
 	for e := 0; e < sc.Existing; e++ {
-		pre := c15Scenario{Rows: sc.Rows, Append: sc.Append}
+		pre := c15Scenario{Rows: sc.Rows, Append: sc.Append, AltQuery: true}
 		c15Run(r, dir, pre, 100+e, "", nil, nil)
 	}
 	if sc.StaleTmp {
